@@ -98,6 +98,42 @@ static void run_dlog(long &kcase) {
 				cards++; count("dlog_partial_openings");
 				if (got != maxT) violation("C01/dlog/partial-opening-not-sentinel", "opening without one share did not return the invalid-type sentinel", J().kv("kind", kind).kv("k", (long long)k).kv("w", (long long)w).kv("T", (long long)T).kv("got", (long long)got).kv("missing", (long long)miss).str());
 			}
+			// a contribution that is first damaged in transit (verification must fail) and then
+			// re-sent intact: once every player's contribution verified, the card opens to T
+			if (k >= 2) {
+				size_t opener = r.below(k), bad = (opener + 1 + r.below(k - 1)) % k;
+				int line = (int)r.below(4);      // which of the 4 lines (d_j, fingerprint, c, r) is damaged
+				BarnettSmartVTMF_dlog *me = W->v[opener];
+				tm.TMCG_SelfCardSecret(c, me);
+				bool all_ok = true, damaged_refused = true; std::string exc;
+				for (size_t j = 0; j < k; j++) {
+					if (j == opener) continue;
+					std::stringstream proof, dummy_in, dummy_out;
+					tm.TMCG_ProveCardSecret(c, W->v[j], dummy_in, proof);
+					if (j == bad) {
+						// damage one line: replace the value v by v+1
+						std::vector<std::string> L; std::string ln; std::stringstream ps(proof.str());
+						while (std::getline(ps, ln)) L.push_back(ln);
+						if ((size_t)line < L.size()) {
+							mpz_t v; mpz_init(v);
+							if (mpz_set_str(v, L[line].c_str(), 62) == 0) { mpz_add_ui(v, v, 1); L[line] = mpz_b62(v); }
+							mpz_clear(v);
+						}
+						std::stringstream dmg; for (auto &x : L) dmg << x << std::endl;
+						int acc = accepted([&]() { return tm.TMCG_VerifyCardSecret(c, me, dmg, dummy_out); }, &exc);
+						if (acc) damaged_refused = false;
+						count("dlog_damaged_then_resent");
+					}
+					std::stringstream again(proof.str());
+					if (!tm.TMCG_VerifyCardSecret(c, me, again, dummy_out)) all_ok = false;
+				}
+				size_t got = tm.TMCG_TypeOfCard(c, me);
+				cards++;
+				J wj; wj.kv("kind", kind).kv("k", (long long)k).kv("w", (long long)w).kv("T", (long long)T).kv("got", (long long)got).kv("opener", (long long)opener).kv("damaged_player", (long long)bad).kv("damaged_line", line).kv("chain", chain);
+				if (!damaged_refused) count("dlog_damaged_share_accepted");   // C05's subject; recorded here
+				if (!all_ok) violation("C01/dlog/resent-proof-rejected", "an intact contribution re-sent after a damaged one was refused", wj.str());
+				else if (got != T) violation("C01/dlog/wrong-type-after-rejected-contribution", "all players' contributions verified (one after a damaged first attempt) but the card did not open to its type", wj.str());
+			}
 			distinct++;
 			if (sample.empty()) sample = J().kv("enc", "dlog").kv("group_kind", kind).kv("k", (long long)k).kv("w", (long long)w).kv("T", (long long)T).kv("private", priv).kv("chain", chain).kv("opened_by", "every player").str();
 		}
